@@ -33,9 +33,12 @@ IGNORED_BASES = ('ABC', 'object')
 # methods of NumPy / SciPy / builtin values that do not modify their receiver
 PURE_METHODS = frozenset("""copy astype dot lower upper sum mean max min tocsr tocsc tocoo toarray transpose items keys
 values get format reshape ravel any all argmax argmin startswith endswith index count nonzero flatten tolist conj
-diagonal multiply power sqrt std var cumsum round clip join split strip isin loss loss_gradient gradient output
-activation""".split())
-# loss / loss_gradient / gradient / output / activation: static methods of the gnn activation classes (no receiver state)
+diagonal multiply power std var cumsum round clip join split strip""".split())
+# methods that are pure because every definition of that name inside sknetwork is a @staticmethod (checked on every run)
+STATIC_ONLY = ('loss', 'loss_gradient', 'gradient')
+# documented "refit from scratch" mode of an estimator whose fit otherwise continues training: fit is analysed with this
+# argument fixed (the run-time history sweep calls it the same way)
+ENTRY_ASSUME = {'GNNClassifier': {'reinit': True}}
 ALIAS_WRAPPERS = ('enumerate', 'reversed', 'list', 'tuple', 'zip', 'sorted', 'iter')
 
 
@@ -218,7 +221,7 @@ class _Flow:
         return out
 
     # -- methods --------------------------------------------------------------------------------
-    def call(self, name, start, D):
+    def call(self, name, start, D, assume=None):
         """Definitely-written set after `self.<name>(...)` entered with D (None when the callee never returns)."""
         r = self.find(name, start)
         if r is None:
@@ -229,7 +232,7 @@ class _Flow:
             got = self.memo[key]
             return set(D) if got == 'busy' else (None if got is None else set(got))
         self.memo[key] = 'busy'      # recursion: no definite write credited, reads/writes collected by the outer analysis
-        out = _Func(self, idx, fn).run(set(D))
+        out = _Func(self, idx, fn, assume).run(set(D))
         self.memo[key] = None if out is None else frozenset(out)
         return out
 
@@ -246,9 +249,17 @@ class _Flow:
 class _Func:
     """One activation of a method body."""
 
-    def __init__(self, flow, idx, fn):
+    def __init__(self, flow, idx, fn, assume=None):
         self.flow, self.idx, self.fn = flow, idx, fn
         owner = flow.mro[idx]
+        self.assume = {}
+        if assume:
+            params = [x.arg for x in fn.args.posonlyargs + fn.args.args + fn.args.kwonlyargs]
+            stored = {x.id for x in ast.walk(fn) if isinstance(x, ast.Name) and isinstance(x.ctx, (ast.Store, ast.Del))}
+            for k, v in assume.items():
+                if k not in params or k in stored:
+                    raise TranslateError('%s.%s: assumed argument %s is not a parameter or is reassigned' % (owner.name, fn.name, k))
+            self.assume = dict(assume)
         a = fn.args
         if fn.name in owner.static:
             self.selfname = None
@@ -378,6 +389,8 @@ class _Func:
                 self.expr(s.exc, D)
             return None
         if isinstance(s, ast.If):
+            if isinstance(s.test, ast.Name) and s.test.id in self.assume:
+                return self.block(s.body if self.assume[s.test.id] else s.orelse, D)
             D = self.expr(s.test, D)
             if D is None:
                 return None
@@ -644,7 +657,7 @@ class _Func:
         if D is None:
             return None
         if isinstance(fn, ast.Attribute):
-            if fn.attr not in PURE_METHODS:
+            if fn.attr not in PURE_METHODS and fn.attr not in STATIC_ONLY:
                 for x in self.root(fn.value):
                     f.mutate(x, D)
         elif isinstance(fn, ast.Name):
@@ -661,8 +674,12 @@ def analyse():
     for mod in sorted(world.mods):
         for name in sorted(world.mods[mod]['classes']):
             world.get(mod, name)
-    facts, skipped = [], []
+    facts, skipped, assumed = [], [], []
     names = {}
+    for key in sorted(world.cls):
+        for m in STATIC_ONLY:
+            if m in world.cls[key].methods and m not in world.cls[key].static:
+                raise TranslateError('%s.%s is not a staticmethod' % (world.cls[key].name, m))
     for key in sorted(world.cls):
         c = world.cls[key]
         # does the class define or inherit fit? (through the resolvable part of its ancestry)
@@ -692,11 +709,17 @@ def analyse():
             config = set(flow.assigned)
         # fit and its wrappers
         flow.reset()
-        d_fit = flow.call('fit', 0, set())
-        for w in sorted(m for m in flow.method_names() if m.startswith('fit_')):
-            flow.call(w, 0, set())
+        assume = ENTRY_ASSUME.get(c.name)
+        d_fit = flow.call('fit', 0, set(), assume)
         if d_fit is None:
             raise TranslateError('%s.fit never returns' % c.name)
+        if assume:
+            assumed += [(c.name, k, v) for k, v in sorted(assume.items())]
+        # wrappers (fit_predict, fit_transform, ...) call fit and then only read results: they contribute assignments only
+        keep = (set(flow.reads_first), set(flow.mutated))
+        for w in sorted(m for m in flow.method_names() if m.startswith('fit_')):
+            flow.call(w, 0, set())
+        flow.reads_first, flow.mutated = keep
         touched = flow.assigned | flow.mutated
         facts.append(dict(
             cls=c.name, config=sorted(config),
@@ -705,11 +728,14 @@ def analyse():
             stale_outputs=sorted(flow.assigned - d_fit)))
     if not facts:
         raise TranslateError('no estimator class found')
-    return facts, sorted(skipped)
+    for k in ENTRY_ASSUME:
+        if k not in names:
+            raise TranslateError('entry assumption for unknown class ' + k)
+    return facts, sorted(skipped), assumed
 
 
 def gen_fitstate():
-    facts, skipped = analyse()
+    facts, skipped, assumed = analyse()
     out = ['(* generated from every class of sknetwork/**/*.py that defines or inherits fit: see harness/translators/fitstate.py *)',
            'From Coq Require Import String List Bool.', 'Import ListNotations.', 'Open Scope string_scope.',
            'Record fit_state := { fs_class : string; fs_config : list string; fs_config_overwritten : list (string * bool);',
@@ -728,6 +754,9 @@ def gen_fitstate():
                '  flat_map (fun f => map (fun p => (fs_class f, fst p)) (filter snd (fs_config_overwritten f))) fit_state_facts.')
     out.append('Definition all_stale_outputs : list (string * string) :=\n'
                '  flat_map (fun f => map (pair (fs_class f)) (fs_stale_outputs f)) fit_state_facts.')
+    out.append('(* arguments of fit fixed for the analysis (documented refit-from-scratch mode) *)')
+    out.append('Definition fit_state_entry_assumptions : list (string * string * bool) := [%s].' %
+               '; '.join('(%s, %s, %s)' % (_cstr(a), _cstr(b), _bool(v)) for a, b, v in assumed))
     out.append('(* classes without fit whose ancestry leaves sknetwork (not analysed) *)')
     out.append('Definition fit_state_skipped_external : list string := [%s].' % '; '.join(_cstr(s) for s in skipped))
     return '\n'.join(out) + '\n'
